@@ -1,22 +1,33 @@
 #!/usr/bin/env python3
 """Run the pinned baseline suite in a checkout and compare with BASELINE.json's stable_pass.
-usage: baseline.py <repo-dir> [extra cargo-nextest args]   (exit 0 iff every stable test passes)"""
+usage: baseline.py <repo-dir>   (exit 0 iff every stable test passes)"""
 import ast, json, os, re, subprocess, sys
-d = sys.argv[1]
+import xml.etree.ElementTree as ET
+d = os.path.abspath(sys.argv[1])
 b = json.load(open('/root/.vp/BASELINE.json'))
-stable = set(ast.literal_eval(b['stable_pass']))
+stable = b['stable_pass']
+if isinstance(stable, str):
+    stable = ast.literal_eval(stable)
+stable = set(stable)
 env = dict(os.environ, CARGO_NET_OFFLINE='true')
+junit = os.path.join(env.get('CARGO_TARGET_DIR', os.path.join(d, 'target')), 'nextest', 'pb', 'junit.xml')
+if os.path.exists(junit):
+    os.remove(junit)
 cmd = ['cargo', 'nextest', 'run', '--workspace', '--no-fail-fast', '--tool-config-file', 'pb:/w/lib/nextest.toml',
        '--profile', 'pb', '--test-threads', '8', '--offline'] + sys.argv[2:]
 p = subprocess.run(cmd, cwd=d, env=env, stdout=subprocess.PIPE, stderr=subprocess.STDOUT, text=True)
-passed = set()
-for line in p.stdout.splitlines():
-    m = re.match(r'\s*(PASS|FAIL|SIGABRT|SIGSEGV|TIMEOUT)\s+\[[^\]]*\]\s+(?:\(\s*\d+/\d+\)\s+)?(\S+)\s+(\S+)', line)
-    if m and m.group(1) == 'PASS':
-        passed.add(m.group(2) + '::' + m.group(3))
+passed, failed = set(), set()
+if os.path.exists(junit):
+    for suite in ET.parse(junit).getroot().iter('testsuite'):
+        sname = suite.get('name')
+        for tc in suite.iter('testcase'):
+            tid = f"{sname}::{tc.get('name')}"
+            bad = any(ch.tag in ('failure', 'error') for ch in tc)
+            (failed if bad else passed).add(tid)
 missing = sorted(stable - passed)
-print(f'stable={len(stable)} passed_now={len(passed)} stable_not_passing={len(missing)}')
-for t in missing: print('  NOT-PASSING', t)
+print(f'stable={len(stable)} passed_now={len(passed)} failed_now={len(failed)} stable_not_passing={len(missing)}')
+for t in missing[:40]:
+    print('  NOT-PASSING', t)
 if not passed:
     print(p.stdout[-3000:])
 sys.exit(1 if missing or not passed else 0)
